@@ -99,26 +99,44 @@ def setup():
     os.makedirs(f"{WORK}/verif/evidence", exist_ok=True)
 
 def run(name, cases):
-    props, f, old, new = M[name]
     sh(f"git -C {WORK}/repo checkout -- .")
-    p = f"{WORK}/repo/{f}"
-    s = open(p).read()
-    if old not in s:
-        return {"name": name, "error": "pattern not found"}
-    open(p, "w").write(s.replace(old, new, 1))
+    if os.path.isdir(name):
+        # a seeded change: <dir>/patch.diff + meta.json
+        meta = json.load(open(os.path.join(name, "meta.json")))
+        props = EXTRA_PROPS or [meta["property"]]
+        r = sh(f"git -C {WORK}/repo apply {os.path.abspath(name)}/patch.diff")
+        if r.returncode != 0:
+            return {"name": name, "error": "patch does not apply", "log": r.stdout}
+    else:
+        props, f, old, new = M[name]
+        props = EXTRA_PROPS or props
+        p = f"{WORK}/repo/{f}"
+        s = open(p).read()
+        if old not in s:
+            return {"name": name, "error": "pattern not found"}
+        open(p, "w").write(s.replace(old, new, 1))
     t = time.time()
     env = dict(os.environ, CARGO_NET_OFFLINE="true", VERIF_DIR=f"{WORK}/verif", CARGO_TARGET_DIR=f"{WORK}/target")
     needs_release = any(x in ("C11",) for x in props)
-    b = sh(f"cd {WORK}/harness && cargo build --offline --profile relassert --bin vcheck", env=env)
+    b = sh(f"cd {WORK}/harness && cargo build --offline --profile relassert -p vcheck --bin vcheck", env=env)
     if b.returncode != 0:
         return {"name": name, "error": "build failed", "log": b.stdout[-1500:]}
     res = {"name": name, "build_s": round(time.time() - t, 1), "results": {}}
     for prop in props:
         t = time.time()
-        r = sh(f"cd {WORK}/verif && {WORK}/target/relassert/vcheck {prop} quick --cases {cases}", env=env)
+        if prop == "C04":
+            r = sh(f"VERIF_REPO={WORK}/repo VERIF_SEED=1 python3 {VERIF}/progs/c04.py quick", env=dict(os.environ))
+            vio = [l for l in r.stdout.splitlines() if l.startswith("VIOLATION") or "inconclusive" in l]
+            res["results"][prop] = {"rc": r.returncode, "s": round(time.time() - t, 1), "first": (vio[0][:300] if vio else r.stdout.strip().splitlines()[-1][:200] if r.stdout.strip() else "")}
+            continue
+        cs = f"--cases {cases}" if cases > 0 else ""
+        r = sh(f"cd {WORK}/verif && {WORK}/target/relassert/vcheck {prop} quick {cs}", env=env)
         vio = [l for l in r.stdout.splitlines() if l.startswith("oracle:") or l.startswith("VIOLATION") or "self-check" in l]
         res["results"][prop] = {"rc": r.returncode, "s": round(time.time() - t, 1), "first": (vio[0][:300] if vio else r.stdout.strip().splitlines()[-1][:200] if r.stdout.strip() else "")}
     return res
+
+EXTRA_PROPS = [x for x in os.environ.get("MUT_PROPS", "").split(",") if x]
+
 
 def main():
     names = sys.argv[1:] or list(M)
